@@ -74,16 +74,20 @@ CLAIMED["C16"] = dict(
     text="Lean 4 theorems for every demand vector, any number of arenas and priority levels: sum of allotments = min(total demand, "
          "effective limit), none above its request, strict priority order, mandatory-concurrency worker; market words stay consistent under "
          "any register/unregister/adjust/limit sequence; deltas handed to the thread server telescope to min(limit, demand); pending-delta "
-         "packing loses nothing under any interleaving of update calls; global_control active value = min of live values; arena slots: "
-         "distinct owners, indices below num_slots, reserved slots never held by workers, for any number of threads and every schedule. "
-         "Tie: generated constants, the real market/serializer/arena/global_control code driven white-box and compared with the models, "
-         "E-SHIM access-level replay of slot occupation and serializer updates (random + DFS schedules).",
-    note="Trusted: Lean kernel, standard axioms, harness/c16 (white-box assembly of threading_control with a fake rml server), E-SHIM, sampled "
-         "correspondence. Not covered by theorems: isolation filters, observer entry/exit pairing, transient per-arena overshoot of try_join. "
-         "Unbounded integers (inputs kept below the int range; an int overflow in update_allotment above 46341 workers is recorded as an observation).",
-    technique="Lean 4 proof (arithmetic + machine invariants + N-thread protocol invariants) + white-box differential + E-SHIM trace replay",
+         "packing loses nothing under any interleaving; global_control active value = min of live values; arena slots: distinct owners, "
+         "indices below num_slots, reserved slots never held by workers (any number of threads, every schedule); isolation: a dispatch loop "
+         "with isolation tag executes only tasks of its region at all five take points (own pool, steal incl. proxies, mailbox, fifo, critical "
+         "stream) and skipping loses nothing; mandatory concurrency: the mandatory request count equals the flag in every reachable state and "
+         "is withdrawn by out_of_work on every path; no worker without a mandatory request under soft limit 0; observers: exits <= entries <= "
+         "exits+1 per thread and observer. Tie: generated constants and 52 filter/decision facts regenerated from the source text, white-box "
+         "differential on the real market/serializer/arena/global_control code, exact differential of all take points on a real arena, "
+         "E-SHIM access-level replay (slots, serializer, mandatory flags), whole-runtime E-SHIM programs with isolation / budget / bound / "
+         "observer / rest monitors.",
+    note="Trusted: Lean kernel, standard axioms, harness/c16, source extractor checks/c16b.py, E-SHIM, sampled correspondence. Not modelled: "
+         "resume stream, bypassed tasks, critical-task re-spawn, isolation-tag reuse (stack address), transient try_join overshoot. Two known "
+         "findings demonstrated on every run (second external thread in a one-thread arena; emptied proxy keeps the arena non-empty).",
+    technique="Lean 4 proof (arithmetic + machine invariants + N-thread protocol invariants) + regenerated decision facts + E-SHIM replay/monitors",
     design="§3 C16")
-
 CLAIMED["C05"] = dict(
     text="Lean 4 theorems for every size < 2^64, grain, partitioner and steal environment: midpoint and proportional (binary32, modelled "
          "exactly) splits give two non-empty adjacent parts; the 2d/3d/nd dimension choice never cuts an indivisible dimension (over the "
